@@ -59,6 +59,7 @@ def rules(ctx):
     c093(ctx)
     c094(ctx)
     c095(ctx)
+    c096(ctx)
 
 
 def c091(ctx):
@@ -255,6 +256,34 @@ def c095(ctx):
             ctx.check(R, f, "restart_point", ok, "restart_point call is dominated by a comparison with num_restarts",
                       "restart_point is called with an index that was not compared with num_restarts", pt=pt)
     ctx.floor(R, "restart_point call sites", n, 5)
+
+
+def c096(ctx):
+    R = "C09.6"
+    ctx.declare(R, "a zero length byte in the log is padding only within a header's length of a block boundary: the reader never skips further")
+    f = ctx.fn(R, "sst::log::LogIterator::true_up")
+    if not f:
+        return
+    sk = ctx.calls(R, f, r"std::io::Seek>::seek$|std::io::Seek::seek$|::seek_relative$|BufReader.*::seek_relative$|std::io::Read>::read_exact$|::consume$")
+    for pt in sk:
+        g = [x for x in K.compare_guards(f, pt) if x["op"] in ("Gt", "Ge") and not x["holds"] and
+             "#HEADER_MAX_SIZE" in (K.src_names(f, x["b"]) | K.src_names(f, x["a"]))]
+        ok = False
+        for x in g:
+            # the bounded quantity is the distance to the boundary: trued_up - offset
+            srcs, _ = P.value_slice(f, x["a"])
+            if any(s_["k"] == "bin" and s_["op"].startswith("Sub") for s_ in srcs) and any(s_["k"] == "call" and s_["callee"].endswith("compute_true_up") for s_ in srcs):
+                ok = True
+        ctx.check(R, f, "skip-bounded", ok, "the reader repositions only on the failing edge of (trued_up - offset) > HEADER_MAX_SIZE",
+                  "the padding skip is no longer bounded by HEADER_MAX_SIZE: a damaged length byte makes the reader jump to the next block boundary "
+                  "(or past EOF) and silently drop records", pt=pt)
+    # the writer pads at most HEADER_MAX_SIZE bytes
+    w = ctx.fn(R, "sst::log::LogBuilder::append_split")
+    if w:
+        tu = P.call_points(w, r"sst::log::LogBuilder::true_up$")
+        early = [p_ for p_ in tu if any(x["op"] == "Le" and x["holds"] and "#HEADER_MAX_SIZE" in K.src_names(w, x["b"]) for x in K.compare_guards(w, p_))]
+        ctx.check(R, w, "writer-pad-bound", bool(early), "the writer pads a whole remainder only when roundup <= HEADER_MAX_SIZE",
+                  "the writer's padding is no longer bounded by HEADER_MAX_SIZE")
 
 
 def c094(ctx):
